@@ -1014,7 +1014,7 @@ def oracle(case, replies):
 _INTS = [0, 1, 2, 5, -3, 10, 2 ** 63 - 1, -2 ** 63, 7]
 _TEXTS = ["", "a", "A", "ab", "aB", "a%", "a_b", "it's", "x'; DROP TABLE t;--", "%", "_", "b", '"', "?", "1", "5",
           "é", "É", "1 OR 1=1", "NULL", "0", "a b", "?, ?", ") OR (1=1", "-3", "中", "%s", "B", "ba", "a\\b", "\\",
-          "C:\\tmp\\x", "100\\%", "a\\_b"]
+          "C:\\tmp\\x", "100\\%", "a\\_b", "a  b", "a\tb", "a\nb", "x   ", " a", "a ", "a \n b", "\n", "\t", "  "]
 _PATTERNS = ["a%", "%", "_", "A_", "%'%", "a\\%", "%b", "_b%", "", "%%", "%_", "5", "-_", "é", "É%", "%?%",
              "__", "a_b", "A\\_B", "%a%b%", "it's", "%;%", "1%", "%0", "_%_", "%S", "%%s", "C:\\tmp\\%", "%\\", "100\\%",
              "a\\b", "\\%", "%\\%%"]
@@ -1205,7 +1205,14 @@ def _g_static(rng, in_group):
     texts = ["%s = %s" % (f1, f2), "%s = %s" % (pid, f1), "%s IS NULL" % f1, "%s < %s" % (f1, pid), "1", "0", "1 = 1",
              "(%s = 1 OR %s IS NULL)" % (f1, f2), "NOT %s = 1" % f1, "%s IN (1, 2, 5)" % f1,
              "%s = 1 AND %s IS NOT NULL" % (f1, f2), "%s IS NOT NULL" % f2, "%s > 1" % pid]
+    # white space is part of the caller's SQL: runs of blanks / tab / line feed inside quoted literals are data,
+    # a line feed ends a `--` comment
+    t1, t2 = f[1], f[2]
+    texts += ["%s = 'a  b'" % t1, "%s != 'a  b'" % t2, "%s = 'a\tb'" % t1, "%s = 'a\nb'" % t2, "%s IN ('x   ', 'ab', 'a b')" % t1,
+              "%s = 'a b'" % t2, "%s  =\t1" % f1, "%s = 1 -- one\n" % f1, "-- which rows\n %s IS NOT NULL -- these\n" % t1,
+              "%s = 'a  b' -- two blanks\n" % t2, "%s >\n  0\n  AND %s < 9" % (pid, pid), "%s LIKE 'a %% b'".replace("%%", "_") % t1]
     if in_group:
+        texts += ["%s = 'x   ' OR %s = 'a\tb'" % (t1, t2), "%s = 1 -- first\n OR %s = 'a  b' -- second\n" % (f1, t2)]
         texts += ["%s = 1 OR %s IS NULL" % (f1, f2), "%s IS NULL OR %s = 2" % (f1, pid), "%s = 1 OR %s = 3" % (pid, pid),
                   "%s = 0 OR %s = %s" % (f1, f1, f2)] * 2
     return ("R", rng.choice(texts))
@@ -1436,8 +1443,13 @@ def _static_scenarios():
     """static conditions (the caller's own SQL): alone, next to other conditions, as the only / one of several
     operands of OR groups (also nested) - the group must stay one unit under the surrounding AND"""
     rows = [[1, 7, 1, "Chuck"], [2, 7, 2, "x"], [3, 1, 1, "Chuck"], [4, None, 1, "x"], [5, 7, None, None], [6, 1, 3, "Chuck"]]
-    statics_or = ["a = 7 OR id = 1", "b = 1 OR a IS NULL", "id = 2 OR id = 6", "a = 1 OR b = a"]
-    statics_plain = ["a = b", "id = b", "a IS NULL", "(a = 7 OR id = 3)", "1", "0", "a = 1 AND b = 1"]
+    rows += [[7, 7, "a  b", "a b"], [8, 1, "a b", "a  b"], [9, 7, "a\tb", "x   "], [10, None, "a\nb", "x"], [11, 7, "x   ", "a\nb"]]
+    statics_or = ["a = 7 OR id = 1", "b = 1 OR a IS NULL", "id = 2 OR id = 6", "a = 1 OR b = a", "b = 'x   ' OR c = 'a  b'",
+                  "a = 1 -- one\n OR b = 'a\tb' -- tab\n"]
+    statics_plain = ["a = b", "id = b", "a IS NULL", "(a = 7 OR id = 3)", "1", "0", "a = 1 AND b = 1",
+                     "b = 'a  b'", "c != 'a  b'", "b = 'a\tb'", "b = 'a\nb'", "b IN ('x   ', 'a b')", "c = 'a b'",
+                     "a = 7 -- seven\n", "-- rows with b\n b IS NOT NULL -- these\n", "b = 'a  b' -- two blanks\n",
+                     "id >\n  2\n  AND id < 11", "a  =\t7"]
     others = [([], [("c", ("S", "Chuck"))]), ([("T", "b", "=", ("S", 1))], []), ([("T", "a", "!=", ("S", 7))], [("c", ("S", "Chuck"))]),
               ([], []), ([("T", "c", "IS NULL", ("S", None))], [])]
     k = 0
